@@ -20,13 +20,14 @@ struct AItem
 
 // long names; the alternative set makes one declared name a proper prefix of another
 static std::string N_MULTI = "multi", N_UGG = "ugg";
+static std::string N_OPT = "opt", L_O = "o", L_M = "m", L_T = "t", L_U = "u"; // option name and the four short names of the variant
 static int DEF_TOG = 0, DEF_UGG = 0; // declared defaults of the two toggles (used when a toggle does not occur)
 
 static Decl declaration(bool shorts)
 {
     Decl D;
-    D.items = { Item::opt("opt", shorts ? "o" : ""), Item::multi(N_MULTI, shorts ? "m" : ""),
-                Item::tog("tog", shorts ? "t" : ""), Item::tog(N_UGG, shorts ? "u" : "") };
+    D.items = { Item::opt(N_OPT, shorts ? L_O : ""), Item::multi(N_MULTI, shorts ? L_M : ""),
+                Item::tog("tog", shorts ? L_T : ""), Item::tog(N_UGG, shorts ? L_U : "") };
     D.accepted = UNLIMITED;
     return D;
 }
@@ -35,7 +36,7 @@ static Res expected(const Decl& D, const std::vector<AItem>& as)
 {
     Res r;
     r.ok = true;
-    r.opt["opt"] = std::nullopt;
+    r.opt[N_OPT] = std::nullopt;
     r.multi[N_MULTI];
     r.tog["tog"] = 0;
     r.tog[N_UGG] = 0;
@@ -45,8 +46,8 @@ static Res expected(const Decl& D, const std::vector<AItem>& as)
         switch (a.type)
         {
         case 'O':
-            r.opt["opt"] = a.v;
-            r.provided.insert("opt");
+            r.opt[N_OPT] = a.v;
+            r.provided.insert(N_OPT);
             break;
         case 'M':
             r.multi[N_MULTI].push_back(a.v);
@@ -92,7 +93,7 @@ static void renderings(bool shorts, const std::vector<AItem>& as, F&& f)
         auto& a = as[i];
         if (a.type == 'O' || a.type == 'M')
         {
-            std::string nm = a.type == 'O' ? std::string("opt") : N_MULTI, s = a.type == 'O' ? "o" : "m";
+            std::string nm = a.type == 'O' ? N_OPT : N_MULTI, s = a.type == 'O' ? L_O : L_M;
             if (is_value_token(a.v))
                 alts[i].push_back({ { "--" + nm, a.v } });
             alts[i].push_back({ { "--" + nm + "=" + a.v } });
@@ -107,7 +108,7 @@ static void renderings(bool shorts, const std::vector<AItem>& as, F&& f)
         {
             alts[i].push_back({ { a.type == 'T' ? std::string("--tog") : "--" + N_UGG } });
             if (shorts)
-                alts[i].push_back({ { a.type == 'T' ? "-t" : "-u" }, a.type == 'T' ? 't' : 'u' });
+                alts[i].push_back({ { a.type == 'T' ? "-" + L_T : "-" + L_U }, a.type == 'T' ? L_T[0] : L_U[0] });
         }
         else
             alts[i].push_back({ { a.v } });
@@ -207,6 +208,16 @@ static Dec decimal(const std::string& s)
     return d;
 }
 
+// a user type for typed access whose extraction operator switches the stream to hex (and leaves it there)
+struct HexByte
+{
+    unsigned v = 0;
+};
+static std::istream& operator>>(std::istream& i, HexByte& h)
+{
+    return i >> std::hex >> h.v;
+}
+
 static ParserCheck make_check()
 {
     ParserCheck chk{ "C02", [](const std::string&) { return true; } };
@@ -215,21 +226,35 @@ static ParserCheck make_check()
         (void)D;
         if (!r.ok)
             return;
-        auto o = r.opt.find("opt");
+        auto o = r.opt.find(N_OPT);
         if (o != r.opt.end() && o->second)
         {
             Dec d = decimal(*o->second);
             const std::string& t = *o->second;
-            if (d.fits_int && args.as<int>("opt") != static_cast<int>(d.ll))
-                out.push_back({ "typed-access", "as<int>(opt) for text '" + t + "' gives " + std::to_string(args.as<int>("opt")) });
-            if (d.fits_ll && (args.as<long>("opt") != static_cast<long>(d.ll) || args.as<long long>("opt") != d.ll))
-                out.push_back({ "typed-access", "as<long>/as<long long>(opt) for text '" + t + "' gives " + std::to_string(args.as<long long>("opt")) });
-            if (d.fits_ull && (args.as<unsigned long long>("opt") != d.ull || args.as<std::size_t>("opt") != static_cast<std::size_t>(d.ull)))
-                out.push_back({ "typed-access", "as<unsigned long long>(opt) for text '" + t + "' gives " + std::to_string(args.as<unsigned long long>("opt")) });
-            if (d.is_decimal && args.as<std::string>("opt") != t)
+            if (d.fits_int && args.as<int>(N_OPT) != static_cast<int>(d.ll))
+                out.push_back({ "typed-access", "as<int>(opt) for text '" + t + "' gives " + std::to_string(args.as<int>(N_OPT)) });
+            if (d.fits_ll && (args.as<long>(N_OPT) != static_cast<long>(d.ll) || args.as<long long>(N_OPT) != d.ll))
+                out.push_back({ "typed-access", "as<long>/as<long long>(opt) for text '" + t + "' gives " + std::to_string(args.as<long long>(N_OPT)) });
+            if (d.fits_ull && (args.as<unsigned long long>(N_OPT) != d.ull || args.as<std::size_t>(N_OPT) != static_cast<std::size_t>(d.ull)))
+                out.push_back({ "typed-access", "as<unsigned long long>(opt) for text '" + t + "' gives " + std::to_string(args.as<unsigned long long>(N_OPT)) });
+            if (d.is_decimal && args.as<std::string>(N_OPT) != t)
                 out.push_back({ "typed-access", "as<std::string>(opt) differs from the text" });
-            if (t == "2.5" && args.as<double>("opt") != 2.5)
-                out.push_back({ "typed-access", "as<double>(opt) for text '2.5' gives " + std::to_string(args.as<double>("opt")) });
+            // typed accesses on one thread do not influence each other: an access with a user type whose extraction leaves
+            // the stream in hex mode in between, then the same integer access again
+            if (d.fits_int)
+            {
+                try
+                {
+                    (void)args.as<HexByte>(N_OPT);
+                }
+                catch (std::exception&)
+                {
+                }
+                if (args.as<int>(N_OPT) != static_cast<int>(d.ll))
+                    out.push_back({ "typed-access", "as<int>(opt) for text '" + t + "' gives " + std::to_string(args.as<int>(N_OPT)) + " after an access through a user type that reads in hex" });
+            }
+            if (t == "2.5" && args.as<double>(N_OPT) != 2.5)
+                out.push_back({ "typed-access", "as<double>(opt) for text '2.5' gives " + std::to_string(args.as<double>(N_OPT)) });
         }
         auto m = r.multi.find(N_MULTI);
         if (m != r.multi.end())
@@ -273,12 +298,18 @@ int main(int argc, char** argv)
 
     auto sh = sharded(a, "C02");
     sh.walk = [&](mc::Ctx& ctx) {
-        for (int variant = 0; variant < 5; variant++)
+        for (int variant = 0; variant < 7; variant++)
         {
+            // 5: digits as short names (`-4`, `-46`, `-9 value`); 6: an option and a multi-option whose long names begin with `no-`
+            L_O = variant == 5 ? "9" : "o";
+            L_M = variant == 5 ? "1" : "m";
+            L_T = variant == 5 ? "4" : "t";
+            L_U = variant == 5 ? "6" : "u";
+            N_OPT = variant == 6 ? "no-opt" : "opt";
             DEF_TOG = variant == 4 ? 2 : 0;
             DEF_UGG = variant == 4 ? 1 : 0;
             int shorts = variant != 1;
-            N_MULTI = variant == 2 ? "opt-x" : "multi";
+            N_MULTI = variant == 2 ? "opt-x" : variant == 6 ? "no-cache-for" : "multi";
             N_UGG = variant == 2 ? "toggle" : "ugg";
             Decl D = declaration(shorts);
             // what is a value-taking option here was a toggle in the parser object's earlier life, and the other way round
